@@ -4,7 +4,9 @@
      identity_claims/storage.rs            (claims held by an identity, topic index)
      identity_verifier/storage.rs          (verify_identity, validate_claim, the two links)
    composed with the reference issuer of Model/ClaimIssuer.v into one world of contracts.
-   Cross-contract calls to an address that is not a contract of the expected kind fail. *)
+   Cross-contract calls to an address that is not a contract of the expected kind fail; the one
+   exception is `is_claim_valid` at an address that is not a reference issuer: its answer is the
+   oracle [c_other] of the configuration (an arbitrary foreign issuer contract). *)
 From SC Require Import Lib.Prelude Lib.Int Lib.Host Model.ClaimIssuer.
 
 Definition mem_z (x : Z) (l : list Z) : bool := existsb (Z.eqb x) l.
@@ -258,8 +260,10 @@ Definition set_issuer (w : world) (a : addr) (s : issuer) : world :=
 
 (* issuer.is_claim_valid(identity, topic, scheme, sig, data) as a cross-contract call *)
 Definition call_is_claim_valid (c : cfg) (w : world) (i d : addr) (topic scheme : Z) (sig data : bytes) : res unit :=
-  do s <- the_issuer w i;
-  is_claim_valid c (w_now w) i s d topic scheme sig data.
+  match the_issuer w i with
+  | Ok s => is_claim_valid c (w_now w) i s d topic scheme sig data       (* a reference issuer *)
+  | Fail => guard (c_other c i d topic scheme sig data)                  (* any other address: the oracle *)
+  end.
 
 (* registry.has_claim_topic(issuer, topic) as a cross-contract call *)
 Definition call_has_claim_topic (w : world) (registry i : addr) (t : Z) : res bool :=
